@@ -167,9 +167,12 @@ CLAIMED = {
   text="Lean 4 theorems over the Ty model, where the order of a union's member list / a struct's field list stands for the hash "
        "iteration order of one instance: == gives `true` between a well-formed union (struct) and every permutation of it; "
        "matches is invariant under permutation of union members on either side; equal unions / structs have equal sizes and key "
-       "sets (what their Hash implementations feed to the hasher); the all-based queries are order independent. Fold-based "
-       "queries and program-level determinism are NOT proved: for the running code they are decided by repetition - K+1 fresh "
-       "parses per type (pairwise ==, matches, one HashSet entry, mut-wrapped match) and K parse+run repetitions of each "
+       "sets (what their Hash implementations feed to the hasher); the all-based queries are order independent; the queries that "
+       "join the members' answers with concat (index_result, element_type, return_type, mut_element_type, field_type) give, "
+       "for every order of the members, no answer in both orders or answers that match each other both ways (from concat being a "
+       "least upper bound). params / flatten_tuple and program-level determinism are NOT proved: for the running code they are "
+       "decided by repetition - K+1 fresh parses per type (pairwise ==, matches, one HashSet entry, mut-wrapped match, the 13 "
+       "static queries structurally equal; 32 three-member subsumption families) and K parse+run repetitions of each "
        "program in one process plus two more processes, outcomes canonicalised, on 8 hash-order-sensitive program families "
        "and general generated programs.",
   note="Lean kernel; the Ty model is hand-written (tied by the C10 type stream); only hash order is addressed as a source of nondeterminism "
